@@ -29,6 +29,10 @@ TRUSTED = [
 F1 = "C10-F1-module-or-relation-name-passes-through"     # fixed by a131b2a: never returned by a classifier
 F2 = "C10-F2-bare-that-outside-join-passes-through"
 F3 = "C10-F3-ancestor-module-declaration-not-found"
+F4 = "C10-F4-scalar-function-call-accepted-as-relation"
+F5 = "C10-F5-duplicate-name-in-tuple-resolves-to-the-last"
+F6 = "C10-F6-excluded-column-of-wildcard-input-inferred-back"
+STD_SCALAR_CALLS = ["(math.abs 3)", "(math.round 1 2.5)", "(math.floor 2.5)", "(sum 3)", "(count this)", "(min 3)", "(math.pow 2 3)", "(3 + 4)", "(text.upper \"a\")"]
 
 HEADER = ("From Coq Require Import List NArith Bool.\nFrom PV Require Import Lib.ListX Model.Scope Gen.GenC10Std.\n"
           "Import ListNotations.\nLocal Open Scope N_scope.\n"
@@ -453,6 +457,55 @@ def run():
                               "kind": "edit", "pi": pi, "coq": "lower_ref head_cfg %s %s" % (coq_scope(p, fr, right), coq_ident(([], d))),
                               "site": "join-condition(this+that)", "name": d, "frame": fr.describe()})
 
+    # (e'') a CALL of a scalar std function where a relation is required (C10-F4): the argument is a scalar whatever the callee
+    for pi, p in enumerate(progs):
+        if not g.chance(0.35):
+            continue
+        callx = g.pick(STD_SCALAR_CALLS)
+        variants = [("from", p.text(source=callx), "[AScalar]"), ("join", p.text(extra=["join %s true" % callx]), "[AScalar; AScalar; ARel]"),
+                    ("append", p.text(extra=["append %s" % callx]), "[AScalar; ARel]")]
+        fn, src, args = g.pick(variants)
+        cases.append({"stream": "edit-e-scalar-for-relation", "src": src, "kind": "call", "pi": pi,
+                      "coq": "call [%s] %s []" % (cs(fn), args), "site": fn + ":std-call", "name": callx, "what": "std-call"})
+
+    # (b'') a select that keeps the same-named column of two inputs, then the bare name (C10-F5): still two candidates
+    for pi, p in enumerate(progs):
+        for k in range(1, len(p.frames)):
+            fr = p.frames[k]
+            if len(fr.inputs) < 2 or not g.chance(0.7):
+                continue
+            for n in dict.fromkeys(fr.all_cols()):
+                owners = [i for i in fr.inputs if i.cols.count(n) == 1 and i.name != n]
+                if len(owners) < 2 or n in fr.direct:
+                    continue
+                a_, b_ = owners[0], owners[1]
+                fr2 = c10_gen.Frame([c10_gen.Input(i.name, [n] if i in (a_, b_) else [], False) for i in fr.inputs])
+                sk = g.pick([x for x in c10_gen.SITES if x not in ("join-cond", "take")])     # `take <column>` is a type error whatever the column
+                cases.append({"stream": "edit-b-ambiguous-name", "src": p.text(upto=k, extra=["select {%s.%s, %s.%s}" % (a_.name, n, b_.name, n), c10_gen.SITES[sk] % n]),
+                              "kind": "edit", "pi": pi, "coq": "lower_ref head_cfg %s %s" % (coq_scope(p, fr2), coq_ident(([], n))),
+                              "site": sk, "name": n, "what": "dup-select", "frame": fr2.describe()})
+                break
+
+    # (a'') a column EXCLUDED from a wildcard input by `select !{c}`, referenced afterwards (C10-F6): the frame is not fully
+    #       known, but that c is not in it is
+    for pi, p in enumerate(progs):
+        for k in range(1, len(p.frames)):
+            fr = p.frames[k]
+            if len(fr.inputs) != 1 or not fr.inputs[0].wild or fr.direct or not g.chance(0.8):
+                continue
+            inp = fr.inputs[0]
+            cand = [c_ for c_ in inp.pool if c_ not in inp.cols and c_ not in c10_gen.MODULE_LIKE and c_ != inp.name]
+            if not cand:
+                continue
+            c_ = g.pick(cand)
+            qual = g.chance(0.3)
+            sk = g.pick([x for x in c10_gen.SITES if x not in ("join-cond", "take")])
+            txt = "%s.%s" % (inp.name, c_) if qual else c_
+            fr2 = c10_gen.Frame([c10_gen.Input(inp.name, [], True, inp.pool)])
+            cases.append({"stream": "edit-a-dropped-column", "src": p.text(upto=k, extra=["select !{%s}" % c_, c10_gen.SITES[sk] % txt]),
+                          "kind": "edit", "pi": pi, "coq": "lower_ref head_cfg %s %s" % (coq_scope(p, fr2), coq_ident(([inp.name] if qual else [], c_))),
+                          "site": sk, "name": txt, "what": "excluded-column", "frame": fr2.describe()})
+
     # (f) a module or relation name where a value is required (repair a131b2a; was C10-F1), and the bare name `that`
     #     outside a join condition (C10-F2).  At any frame (a name that denotes a declaration is never inferred as a column).
     for pi, p in enumerate(progs):
@@ -591,16 +644,25 @@ def run():
         # C10-F2: the model itself predicts the passthrough, and since a131b2a that is only the bare name `that` outside a
         # join condition (Props/C10.v passthrough_only_bare_that), as an expression or as an interpolated item of an s-string;
         # interpolated RELATION names are spliced by design and never reach this classifier
-        if case.get("model_kind") == "OPassthrough" and case.get("impl") == "ok" and case.get("name") == "that" and not (cfg and cfg["that_rejected"]):
-            return F2
+        # (C10-F2, the bare `that`, is fixed by 006e33c: nothing is classified here any more)
+        if case.get("impl") != "ok":
+            return None
+        # C10-F4: the relation argument is a CALL of a std function (a scalar); it compiles to `FROM ABS(3)`
+        if case.get("what") == "std-call" and str(case.get("site", "")).endswith(":std-call") and "ENotARelation" in str(case.get("model")):
+            return F4
+        # C10-F5: the step before the site is a select keeping `x.n, y.n`; the model still sees two candidates
+        if case.get("what") == "dup-select" and case.get("model_kind") == "OErr:EAmbiguous":
+            return F5
+        # C10-F6: the name was excluded by the immediately preceding `select !{..}` from a wildcard input; the (faithful) model infers it
+        if case.get("what") == "excluded-column" and case.get("model_kind") == "OInferredColumn":
+            return F6
         return None
 
     def classify_module(case):
         # C10-F3: the declaration lives in a PROPER ANCESTOR of the referencing declaration's module (depth >= 2, declared in
         # the parent): resolve_ident drops the outermost module name instead of the innermost one
         d = case.get("module_case") or {}
-        if d.get("depth", 1) >= 2 and d.get("where") == "parent" and not (cfg and cfg["parent_walk"]):
-            return F3
+        # (C10-F3, the parent-module walk, is fixed by 7f02b48: nothing is classified here any more)
         return None
 
     for c in cases:
